@@ -496,7 +496,7 @@ def readout_ctor_file(u: Unit):
         u.cover(f"readout.file.cover[{ncols}]", ps, lambda p: p.kind == "return")
 
 
-STANDIN = {r"readout\.ctor\.file": FILE_REPLAY}
+STANDIN = {r"readout\.ctor\.file": FILE_REPLAY, r"^run\b|run\.": clock_replay()}
 
 
 REPLACE_REPLAY = lambda w: {"code": """
